@@ -144,6 +144,12 @@ def export_all(res, session, how='api'):
     s = io.StringIO(); SHARED['csv'].export(s, res); out.append(csv_record(s.getvalue(), res))
     s = io.StringIO(); SHARED['json'].export(s, res); out.append(json_record(s.getvalue(), res))
     s = io.StringIO(); SHARED['archive'].export(s, res); out.append(archive_record(s.getvalue(), res, session))
+    # other exporters configured differently are created and used in between (a tab-separated table, an unquoted one, a compact JSON):
+    # a default exporter created afterwards must still write the documented format
+    import csv as _csv
+    for opts in (dict(delimiter='\t'), dict(quoting=_csv.QUOTE_NONE, escapechar='\\'), dict(lineterminator='\r\n', quotechar="'")):
+        CSVResultsExporter(**opts).export(io.StringIO(), res)
+    JSONResultsExporter(pretty=False).export(io.StringIO(), res)
     s = io.StringIO(); CSVResultsExporter().export(s, res); out.append(csv_record(s.getvalue(), res))
     s = io.StringIO(); JSONResultsExporter().export(s, res); out.append(json_record(s.getvalue(), res))
     s = io.StringIO(); JSONResultsExporter(pretty=True).export(s, res); out.append(json_record(s.getvalue(), res))
